@@ -209,8 +209,8 @@ CHECKS = {
             "the Go scheduler is not controlled: plans vary goroutine counts, writer pacing (yield points, chunking) and GOMAXPROCS, and the race detector watches every execution; no claim about all interleavings",
             "components are the compiled fixtures of harness/fx (in-process part) and tgen programs without tick() (development-mode part)",
         ],
-        "quick": {"timeout": 900, "runs": [{"run": "^TestPropConcurrent$", "rapid_checks": 400}, {"run": "^TestPropDevModeConcurrent$", "rapid_checks": 6}]},
-        "thorough": {"timeout": 3400, "shards": 8, "runs": [{"run": "^TestPropConcurrent$", "rapid_checks": 6000}, {"run": "^TestPropDevModeConcurrent$", "rapid_checks": 40}]},
+        "quick": {"timeout": 900, "runs": [{"run": "^TestPropConcurrent$", "rapid_checks": 400}, {"run": "^TestPropDevModeConcurrent$", "rapid_checks": 6}, {"run": "^TestPropFirstUse$", "rapid_checks": 1}]},
+        "thorough": {"timeout": 3400, "shards": 8, "runs": [{"run": "^TestPropConcurrent$", "rapid_checks": 6000}, {"run": "^TestPropDevModeConcurrent$", "rapid_checks": 40}, {"run": "^TestPropFirstUse$", "rapid_checks": 1}]},
     },
     "C15": {
         "pkg": "./checks/c15",
